@@ -40,7 +40,8 @@ type c06Arg struct {
 var c06Err = errors.New("injected error")
 
 func c06KwArgs() []c06Arg {
-	return []c06Arg{{`"kw2"`, "kw2"}, {`"other"`, "other"}, {`""`, ""}, {"Name(nm)", Name("nm")}, {"5", 5}, {"nil", nil}, {"3.5", 3.5}}
+	return []c06Arg{{`"kw2"`, "kw2"}, {`"other"`, "other"}, {`""`, ""}, {"Name(nm)", Name("nm")}, {"5", 5}, {"nil", nil}, {"3.5", 3.5},
+		{"(*Name)(nil)", (*Name)(nil)}, {"&Name(pn)", func() any { n := Name("pn"); return &n }()}}
 }
 
 func c06OpArgs() []c06Arg {
@@ -54,7 +55,7 @@ func c06ExArgs() []c06Arg {
 	return []c06Arg{{`"v"`, "v"}, {`"w w"`, "w w"}, {`""`, ""}, {"nil", nil}, {"42", 42}, {"3.5", 3.5}, {"true", true},
 		{"Stack", stackage.And().Push("x", "y")}, {"AStack", AStack(stackage.Or().Push("z"))}, {"SStack", SStack(stackage.List().Push(1, 2))}, {"*AStack", &a},
 		{"Condition", stackage.Cond("ik", stackage.Lt, 5)}, {"Name(n)", Name("n")}, {"empty Stack", stackage.Not()},
-		{"[]string{a}", []string{"a"}}, {"[]string{b,c}", []string{"b", "c"}}, {"map", map[string]int{"k": 1}}, {"struct{[]int}", struct{ L []int }{[]int{1}}}}
+		{"(*Name)(nil)", (*Name)(nil)}, {"[]string{a}", []string{"a"}}, {"[]string{b,c}", []string{"b", "c"}}, {"map", map[string]int{"k": 1}}, {"struct{[]int}", struct{ L []int }{[]int{1}}}}
 }
 
 func isStackVal(v any) bool {
@@ -92,6 +93,9 @@ func c06SetKw(a c06Arg) c06Step {
 			m.kw = tv
 			return "kw", true
 		case fmt.Stringer:
+			if v := reflect.ValueOf(a.v); v.Kind() == reflect.Ptr && v.IsNil() {
+				return "kw", false // a typed nil pointer: nothing to call String on - rejected, and no panic
+			}
 			m.kw = tv.String()
 			return "kw", true
 		}
@@ -253,7 +257,9 @@ func c06Start(kind int, r *core.Rng) (stackage.Condition, *c06Model, string) {
 	case string:
 		m.kw = tv
 	case fmt.Stringer:
-		m.kw = tv.String()
+		if v := reflect.ValueOf(ka.v); !(v.Kind() == reflect.Ptr && v.IsNil()) {
+			m.kw = tv.String()
+		}
 	}
 	if opAcceptable(op) {
 		m.op = op
